@@ -15,6 +15,10 @@ def _adapters(ck):
     # cancel attempt, nothing else does, CancellationRecord OK iff all succeeded; cancel_study end to end
     from harness.props import c07_adapters
     c07_adapters.run_adapters(ck)
+    # the real `maestro cancel` command line over several running studies: every named study gets its
+    # request (cancel_jobs with its live jobs, nothing submitted afterwards, exit 3), unnamed ones are untouched
+    from harness import e2e
+    e2e.check_cancel_cli(ck, pidnum=7)
 
 
 def run(ck):
